@@ -118,6 +118,9 @@ def lossless_format(rng, off_has_seconds):
     elif rng.random() < 0.12:
         # the month (and, redundantly, the weekday) by its locale name
         date = rng.choice([[], ["%a"], ["%A"]]) + [year, rng.choice(["%b", "%B", "%h"]), "%d"]
+    if rng.random() < 0.2:
+        # the day blank-padded (%e): " 9" must parse back (fixed in /repo fa0b6d4)
+        date = [("%e" if x == "%d" else x) for x in date]
     secs = rng.choice([["%E*S"], ["%S", ".", "%E*f"], ["%E15S"], ["%E18S"], ["%S", ",", "%E15f"]])
     tm = ["%H", "%M"] + secs
     offs = rng.choice(["%E*z", "%::z", "%:::z"] if off_has_seconds or rng.random() < 0.5 else ["%Ez", "%:z", "%z"])
@@ -161,7 +164,8 @@ def gen_c07(tier, rng):
             cases.append("fp %s %s %d %d%s" % (zid, hx(f), rng.choice(ts), rng.choice(FS), pz()))
         for f in ("%Y-%m-%dT%H:%M:%E*S%E*z", "%Y-%m-%d %H:%M:%S.%E*f %::z", "%s", "%E4Y/%m/%d %H:%M:%E15S %:::z",
                   "%Y week %U day %w %H:%M:%E*S %E*z", "%Y-W%W-%u %H:%M:%E*S %E*z",
-                  "%A, %d %B %Y %H:%M:%E*S %E*z", "%a %b %d %H:%M:%E15S %Y %::z"):
+                  "%A, %d %B %Y %H:%M:%E*S %E*z", "%a %b %d %H:%M:%E15S %Y %::z",
+                  "%Y-%m-%e %H:%M:%E*S%E*z", "%e.%m.%Y %H:%M:%E*S %E*z", "%Y/%m/%e-%H:%M:%E*S %::z"):
             for t in ts:
                 cases.append("fp %s %s %d %d%s" % (zid, hx(f), t, rng.choice(FS), pz()))
             # the two ends of the range with every kind of parse zone (parse()'s overflow checks consult a zone)
@@ -217,10 +221,14 @@ def gen_c09(tier, rng):
         order = ["%Y", "%m", "%d", "%H", "%M", "%S"]
         seps = ["-", "-", "T", ":", ":", ""]
         fmt, inp = "", ""
+        day_e = rng.random() < 0.12 and 1 <= vals["%d"] <= 31
         for sp, se in zip(order, seps):
-            fmt += sp + se
+            fmt += ("%e" if (sp == "%d" and day_e) else sp) + se
             if sp == "%Y":
                 inp += str(vals[sp]) + se
+            elif sp == "%d" and day_e:
+                # %e as format() renders it: blank-padded (accepted since fa0b6d4)
+                inp += ("%2d" % vals[sp]) + se
             else:
                 inp += ("%02d" % vals[sp] if vals[sp] >= 0 else str(vals[sp])) + se
         fsv = 0
@@ -294,6 +302,12 @@ def gen_c09(tier, rng):
             if suffix.endswith("x"):
                 exp = "REJ"            # trailing garbage after the last field
         cases.append(("parse %s %s %s %s" % (zid, hx(fmt), hx(inp), exp)).rstrip())
+    # %e: exactly what format() renders (a blank and one digit, or two digits) and its near misses
+    for inp, exp in (("2024-03- 9", "CIV 2024 3 9 0 0 0 0"), ("2024-03-19", "CIV 2024 3 19 0 0 0 0"), ("2024-03-9", "CIV 2024 3 9 0 0 0 0"),
+                     ("2024-03- 0", "REJ"), ("2024-03-  9", "REJ"), ("2024-03- 19", "REJ"), ("2024-03- x", "REJ"), ("2024-03- ", "REJ")):
+        cases.append("parse %s %s %s %s" % (fixed_ids()[0], hx("%Y-%m-%e"), hx(inp), exp))
+    cases.append("parse %s %s %s %s" % (fixed_ids()[0], hx("%Y-%m-%d"), hx("2024-03- 9"), "REJ"))
+    cases.append("parse %s %s %s %s" % (fixed_ids()[0], hx("%Y-%m-%e%H"), hx("2024-03- 901"), "CIV 2024 3 9 1 0 0 0"))
     # %s and years at the int64 limits
     for v in (I64_MAX, I64_MAX - 1, I64_MIN, I64_MIN + 1, 0, -1):
         for txt in (str(v), str(v + 1) if v > 0 else str(v - 1), str(v) + "0", "+" + str(v), " " + str(v) + " "):
